@@ -80,6 +80,13 @@ func c11Faults() []c11Fault {
 		}, false},
 		// a call site that called a function the first time it ran meets a name that is shadowed by a number the second time
 		{"call site whose name is shadowed on its second evaluation", func() Expr { return Bin("+", CallE(V("viaSite"), N("0")), CallE(V("shadow"), N("3"))) }, false},
+		// keys of a kind that cannot index anything, on receivers that are not objects
+		{"array indexed with null", func() Expr { return Idx(V("arrv"), &NullLit{}) }, false},
+		{"array indexed with a boolean", func() Expr { return Idx(V("arrv"), &BoolLit{B: true}) }, false},
+		{"string indexed with null", func() Expr { return Idx(S("abc"), Mem(V("objv"), "nul")) }, false},
+		{"number indexed with an array", func() Expr { return Idx(V("numv"), V("arrv")) }, false},
+		{"for-in with an unknown $-variable as loop variable", func() Expr { return CallE(V("itdollar")) }, false},
+		{"for-in with an unknown $-variable as second variable", func() Expr { return CallE(V("itdollar2")) }, false},
 		// invalid patterns written as regex LITERALS: a runtime error when (and only when) the match is evaluated
 		{"invalid regex literal", func() Expr { return Bin("~", S("a"), &RegexLit{Src: "a("}) }, false},
 		{"invalid regex literal: repeat", func() Expr { return Bin("!~", S("a"), &RegexLit{Src: "x{3,1}"}) }, false},
@@ -99,6 +106,8 @@ func c11Funcs() []*Func {
 	return []*Func{
 		{Name: "itnum", Body: Blk(&ForIn{V: "v", Iter: N("5"), Body: Blk()}, &Return{N("1")})},
 		{Name: "rec", Body: Blk(&Return{CallE(V("rec"))})},
+		{Name: "itdollar", Body: Blk(&ForIn{V: "$k", Iter: V("objv"), Body: Blk(Pr(S("loop ran")))}, &Return{N("1")})},
+		{Name: "itdollar2", Body: Blk(&ForIn{V: "k", W: "$v", Iter: V("arrv"), Body: Blk(Pr(S("loop ran")))}, &Return{N("1")})},
 		{Name: "idf", Params: []string{"v"}, Body: Blk(&Return{V("v")})},
 		{Name: "tr", Body: Blk(Pr(S("argument evaluated")), &Return{N("1")})},
 		// viaSite holds the one call site target(); shadow binds a parameter of that name (names are looked up dynamically)
